@@ -11,7 +11,7 @@
           counter) from the DutchAuction field instead of DutchLendAuction (class 7)
    fixed: property=C20 17e806f collector InitGenesis dropped the lookup table, the auction mapping and
           the denoms mapping when the validating lookup setter failed (class 12)
-   fixed: property=C20 PENDING rewards InitGenesis never restored the id counters of the external
+   fixed: property=C20 dfe74db rewards InitGenesis never restored the id counters of the external
           reward programmes for lockers / vaults: the next programme overwrote programme 1 (class 18)
    These classes and their [_refuted] theorems are deleted; their witnesses are the regression
    examples [c20_*_regression] below and forced cases of the behavioural runs (TestC20 cases 0, 1;
